@@ -2,7 +2,8 @@
    U = str.isprintable of the running interpreter, as range tables regenerated on every run. *)
 From Coq Require Import NArith List Bool.
 From I18n Require Import Model.Tags Proofs.Tags Model.Terminal Proofs.Terminal
-  Generated.UcdPrintable Generated.CallSites Generated.TagsData Generated.ToolMessages.
+  Generated.UcdPrintable Generated.CallSites Generated.TagsData Generated.ToolMessages
+  Lib.Outcome Lib.PySrc Model.TagsPy Generated.TagsSrc Proofs.TagsSrc.
 Import ListNotations.
 Local Open Scope N_scope.
 
@@ -113,6 +114,96 @@ Print Assumptions C02_strip_delay_subsequence.
 Theorem C02_strip_delay_plain : forall p, ~ In c_dollar p -> strip_delay p = p.
 Proof. exact strip_delay_plain_id. Qed.
 Print Assumptions C02_strip_delay_plain.
+
+(* ---- source tie (notes/SRC5.md).  Generated/TagsSrc.v is the translation, made on every run by tools/gen/gen_tags_src.py, of
+   lib/tags.py (OrderedEnum, severities, certainties, _is_safe, _escape, safe_format, Tag.get_priority, Tag.get_colors, Tag.format)
+   and lib/terminal.py (attr_fg, attr_reset).  Each translated definition equals the model the theorems above are about, for all
+   arguments and all oracles (repr() as modelled by repr_str U / repr_bytes_tail; str.format, the curses calls, bytes.decode and
+   terminal.colors arbitrary).  A behavioural edit of that Python code changes the generated text and these no longer compile. *)
+Theorem C02_source_tie_enums :
+  src_severities = map sev_name all_severities /\ src_certainties = map cer_name all_certainties /\
+  map sev_rank all_severities = [1; 2; 3; 4; 5; 6] /\ map cer_rank all_certainties = [1; 2; 3].
+Proof. exact src_enums_eq. Qed.
+Print Assumptions C02_source_tie_enums.
+
+Theorem C02_source_tie_enum_order : forall a b, src_enum_lt a b = (a <? b) /\ src_enum_eq a b = (a =? b).
+Proof. exact src_enum_order_eq. Qed.
+Print Assumptions C02_source_tie_enum_order.
+
+Theorem C02_source_tie_is_safe : forall s, src_is_safe s = is_safe s.
+Proof. exact src_is_safe_eq. Qed.
+Print Assumptions C02_source_tie_is_safe.
+
+Theorem C02_source_tie_escape : forall a, src_escape (repr_str U) repr_bytes_full a = SRet (escape U a).
+Proof. exact (src_escape_eq U). Qed.
+Print Assumptions C02_source_tie_escape.
+
+Theorem C02_source_tie_safe_format : forall fmt t args kw,
+  src_safe_format (repr_str U) repr_bytes_full fmt t args kw = sbind1 (safe_format U fmt t args kw) (fun r => SRet (ASafe r)).
+Proof. exact (src_safe_format_eq U). Qed.
+Print Assumptions C02_source_tie_safe_format.
+
+Theorem C02_source_tie_priority : forall s c, src_get_priority (sev_rank s) (cer_rank c) = SRet [priority s c].
+Proof. exact src_get_priority_eq. Qed.
+Print Assumptions C02_source_tie_priority.
+
+Theorem C02_source_tie_attr_reset : forall tigetstr decode,
+  src_attr_reset tigetstr strip_delay decode = sbind1 (decode (attr_reset (tigetstr sgr0_name))) (fun t => SRet t).
+Proof. exact src_attr_reset_eq. Qed.
+Print Assumptions C02_source_tie_attr_reset.
+
+Theorem C02_source_tie_attr_fg : forall (C : Type) tigetstr (tparm : list N -> C -> list N) decode i,
+  src_attr_fg tigetstr strip_delay tparm decode i = sbind1 (decode (attr_fg (tigetstr setaf_name) (fun s => tparm s i))) (fun t => SRet t).
+Proof. exact (@src_attr_fg_eq). Qed.
+Print Assumptions C02_source_tie_attr_fg.
+
+Theorem C02_source_tie_colors : forall (C : Type) tigetstr (tparm : list N -> C -> list N) decode colors s c,
+  src_get_colors tigetstr strip_delay tparm decode colors (sev_rank s) (cer_rank c) = model_colors tigetstr tparm decode colors (priority s c).
+Proof. exact (@src_get_colors_eq). Qed.
+Print Assumptions C02_source_tie_colors.
+
+(* Tag.format: the model's line, with the two colour strings of get_colors when colour is on and empty ones otherwise *)
+Theorem C02_source_tie_format : forall (C : Type) tigetstr (tparm : list N -> C -> list N) decode colors s c name target extra color,
+  src_format (repr_str U) repr_bytes_full tigetstr strip_delay tparm decode colors (sev_rank s) (cer_rank c) name target extra color
+  = sbind1 (if color then model_colors tigetstr tparm decode colors (priority s c) else SRet ([], []))
+           (fun p => SRet (format_line U (priority s c) target name (fst p) (snd p) extra)).
+Proof. exact (fun C => @src_format_eq C U). Qed.
+Print Assumptions C02_source_tie_format.
+
+(* what the CLI does when stdout is no terminal: color=True with the dummy curses (tigetstr = b'', and b''.decode() = '') *)
+Theorem C02_source_tie_format_no_tty : forall (C : Type) (tparm : list N -> C -> list N) decode colors s c name target extra,
+  decode [] = SRet [] ->
+  src_format (repr_str U) repr_bytes_full (fun _ => Some []) strip_delay tparm decode colors (sev_rank s) (cer_rank c) name target extra true
+  = SRet (format_line U (priority s c) target name [] [] extra).
+Proof. exact (fun C => @src_format_no_tty C U). Qed.
+Print Assumptions C02_source_tie_format_no_tty.
+
+(* so the translated code itself yields clean text: the line of Tag.format (colour off), and whatever safe_format gives str.format *)
+Theorem C02_source_format_clean : forall (C : Type) tigetstr (tparm : list N -> C -> list N) decode colors s c name target extra,
+  clean U target -> clean U name -> Forall (arg_clean U) extra ->
+  exists line,
+    src_format (repr_str U) repr_bytes_full tigetstr strip_delay tparm decode colors (sev_rank s) (cer_rank c) name target extra false = SRet line
+    /\ clean U line.
+Proof. exact (fun C tig tparm dec colors s c name target extra => @src_format_clean C U tig tparm dec colors s c name target extra C02_ascii_printable). Qed.
+Print Assumptions C02_source_format_clean.
+
+Theorem C02_source_safe_format_clean : forall t args kw,
+  Forall (arg_clean U) args -> Forall (fun kv => arg_clean U (snd kv)) kw ->
+  forall fmt, exists a' kw',
+    src_safe_format (repr_str U) repr_bytes_full fmt t args kw = sbind1 (fmt t a' kw') (fun r => SRet (ASafe r))
+    /\ Forall (clean U) a' /\ Forall (fun kv => clean U (snd kv)) kw'.
+Proof. exact (fun t args kw => src_safe_format_clean U t args kw C02_ascii_printable). Qed.
+Print Assumptions C02_source_safe_format_clean.
+
+(* non-vacuity: the translated _escape and Tag.format computed on hostile input (isprintable = the generated table) *)
+Example C02_src_ex :
+  src_escape (repr_str U) repr_bytes_full (AStr [97;10;27;91;51;49;109]) = SRet [39;97;92;110;92;120;49;98;91;51;49;109;39] /\
+  src_escape (repr_str U) repr_bytes_full (ABytes [255;39]) = SRet [34;92;120;102;102;39;34] /\
+  src_format (C := N) (repr_str U) repr_bytes_full (fun _ => None) strip_delay (fun s _ => s) (fun s => SRet s) (fun _ => 0)
+    (sev_rank Important) (cer_rank Possible) [116] [97;46;112;111] [AStr [120;32;121]; ASafe [40;122;41]; AStr []] false
+  = SRet [69;58;32;97;46;112;111;58;32;116;32;39;120;32;121;39;32;40;122;41;32;40;101;109;112;116;121;32;115;116;114;105;110;103;41] /\
+  src_get_priority 7 1 = SRaise (XCrash CKeyError).
+Proof. vm_compute. repeat split; reflexivity. Qed.
 
 (* sgr0 = \E[0m$<20>  and  setaf = \E[3%p1%dm$<10*/>  (multi-digit delays, both suffixes) *)
 Example C02_ex_padding :
